@@ -27,7 +27,46 @@ RULE = (
 ASSUMPTIONS = ["requests arrive at boundaries between event-loop callbacks"]
 KINDS = ("pause", "defer", "suspend", "abort", "stop", "halt")
 
-check_case = e1common.make_check(e1oracles.oracle_c08)
+def check_case(case):
+    from ..core import Result
+    from ..engine.harness import run_case
+
+    obs = run_case(case)
+    res = Result()
+    res.klass = e1common.klass_of(case, obs)
+    res.classes.append("landing:" + e1common.landing(obs))
+    if obs.stuck:
+        res.classes.append("stuck")
+    e1oracles.oracle_c08(case, obs, res)
+    if case.get("probe") == "pause":
+        _judge_pause_probe(case, obs, res)
+    return res
+
+
+def _judge_pause_probe(case, obs, res):
+    """After the history the engine is idle again; the next call pauses at an in-plan pause in a resumable section:
+    RunEngineInterrupted must then mean 'paused' and the plan must be resumable, whatever earlier calls did."""
+    if obs.probe is None or obs.final_state != "idle" or obs.stuck:
+        return
+    from bluesky.utils import RunEngineInterrupted
+
+    p = obs.probe
+    res.classes.append("pause_probe")
+    cleared = any(h["msg"].command == "clear_checkpoint" for h in obs.hook[: p.get("hook_start", 0)])
+    if cleared:
+        res.nontrivial = True
+    feats = dict(plan=case.get("name"), earlier_call_cleared_checkpoint=cleared)
+    if p.get("outcome") != "raise" or not isinstance(p.get("exc"), RunEngineInterrupted):
+        res.fail("probe_pause_not_reported", f"the next call pauses in a resumable section but RE(...) -> {p.get('outcome')} {p.get('exc')!r}", **feats)
+    elif p.get("state_after") != "paused":
+        res.fail(
+            "interrupted_but_not_paused_in_next_call",
+            f"the next call (open_run, checkpoint, null, pause, ...) raised RunEngineInterrupted with state {p.get('state_after')!r}: "
+            "a pause in a resumable section must leave the engine paused",
+            **feats,
+        )
+    elif p.get("resume_outcome") != "return" or p.get("state_after_resume") != "idle":
+        res.fail("probe_resume_failed", f"resume() of the next call -> {p.get('resume_outcome')} {p.get('resume_exc')!r}, state {p.get('state_after_resume')!r}", **feats)
 
 
 def run(ctx):
@@ -35,6 +74,16 @@ def run(ctx):
     cases = list(corpus.single_request_cases(names, KINDS, decisions=("resume", "abort")))
     if ctx.quick:
         cases = [c for i, c in enumerate(cases) if i % 2 == ctx.seed % 2]
+    # a second call on the same engine: plans that use clear_checkpoint run first (to completion, stopped or aborted),
+    # then the next call must be pausable and resumable like a first one
+    later = []
+    for name in ("nonresumable", "nonresumable_toggles", "count2"):
+        for stages in ([{"do": "call"}], [{"do": "call", "inj": [{"at": 40, "do": "abort"}]}], [{"do": "call", "inj": [{"at": 30, "do": "pause"}]}, {"do": "abort"}]):
+            c = corpus.base_case(name)
+            c["stages"] = stages
+            c["probe"] = "pause"
+            later.append(c)
+    cases += later
     ctx.sweep(cases, check_case)
     ctx.extra["sweep_cases"] = len(cases)
     e1common.generated(ctx, check_case, n=ctx.pick(500, 20000), profile="lifecycle")
